@@ -24,6 +24,7 @@ import re
 import shutil
 import subprocess
 import sys
+import time
 
 from vf import core
 from vf.coqlit import cbool, clist, cstr
@@ -39,7 +40,9 @@ THEOREMS = [
 
 RESERVED = ["_source", "_classification", "_generated", "_version"]
 EXTRA_TYPES = ["string", "varint", "uint16", "uint32", "boolean", "float", "bytes", "datetime", "path", "uri",
-               "net.ipaddress", "net.ipnetwork", "filesize", "unix_file_mode", "digest", "wstring", "string[]", "varint[]"]
+               "net.ipaddress", "net.ipnetwork", "filesize", "unix_file_mode", "digest", "wstring", "string[]", "varint[]",
+               "command", "command[]", "path[]", "net.ipaddress[]", "net.ipnetwork[]", "digest[]", "datetime[]", "filesize[]",
+               "float[]", "boolean[]", "bytes[]", "uri[]", "unix_file_mode[]", "record", "record[]", "command", "float", "path"]
 S_POOL = ["x", "ab", "xa", "a b", "", "x,y", 'q"uote', "hé", "'single'", " lead"]
 GEN_TIMES = [pydt.datetime(2023, 5, 6, 7, 8, 9, 123456, tzinfo=pydt.timezone.utc),
              pydt.datetime(2023, 5, 6, 7, 8, 9, tzinfo=pydt.timezone.utc),
@@ -114,20 +117,38 @@ def uid_of(v):
     return int(_get(v, "uid")) if "uid" in v["names"] else None
 
 
+_INNER = {}
+
+
+def inner_record(rnd, gen, depth=0):
+    """a nested record value (field types record / record[])"""
+    from flow.record import RecordDescriptor
+    if "d" not in _INNER:
+        _INNER["d"] = RecordDescriptor("c16/inner", [("string", "a"), ("varint", "b"), ("path", "p"), ("command", "c"),
+                                                     ("float", "f"), ("datetime", "t")])
+    kw = dict(a=safe_value(rnd, gen, "string"), b=safe_value(rnd, gen, "varint"), p=safe_value(rnd, gen, "path"),
+              c=safe_value(rnd, gen, "command"), f=safe_value(rnd, gen, "float"), t=GEN_TIMES[rnd.randrange(len(GEN_TIMES))])
+    return _INNER["d"].recordType(_source=rnd.choice([None, "in"]), _classification=None, _generated=GEN_TIMES[0], **kw)
+
+
 def safe_value(rnd, gen, t):
-    from vf import recgen
+    """a value of the field type that every output mode can show as text: no line breaks / NUL / DEL / surrogates in
+    text, no filesize beyond what its text form supports (C20's findings); everything else the type accepts,
+    float specials included"""
+    if t == "record":
+        return None if rnd.random() < 0.2 else inner_record(rnd, gen)
+    if t == "record[]":
+        return [inner_record(rnd, gen) for _ in range(rnd.randrange(3))]
     for _ in range(50):
         v = gen.value(t, 0)
         ok = True
         for x in (v if isinstance(v, list) else [v]):
             if isinstance(x, str) and (any(c in x for c in "\n\r\x00\x7f") or len(x) > 300 or any(0xD800 <= ord(c) <= 0xDFFF for c in x)):
                 ok = False
-            if isinstance(x, float) and (x != x or x in (float("inf"), float("-inf"))):
+            if t.startswith("filesize") and x is not None and abs(x) >= 10**15:
                 ok = False
-        if t == "filesize" and v is not None and abs(v) >= 10**15:
-            ok = False
-        if t == "path" and v is not None and any(0xD800 <= ord(c) <= 0xDFFF for c in str(v)):
-            ok = False
+            if t.startswith("path") and x is not None and any(0xD800 <= ord(c) <= 0xDFFF for c in str(x)):
+                ok = False
         if ok:
             return v
     return None
@@ -181,6 +202,12 @@ class Dataset:
         self.descs.append(RecordDescriptor("c16/ts2", [("varint", "uid"), ("string", "ts_description"), ("datetime", "d1")]))
         self.descs.append(RecordDescriptor("c16/ts3", [("string", "ts"), ("varint", "uid"), ("datetime", "d2"), ("varint", "n")]))
         self.descs.append(RecordDescriptor("c16/ts4", [("datetime", "ts"), ("string", "ts_description"), ("varint", "uid")]))
+        # one record type with a field of EVERY field type (and one that a JSON source can hold)
+        every = sorted(set(EXTRA_TYPES))
+        self.descs.append(RecordDescriptor("c16/all", [("varint", "uid"), ("varint", "n"), ("string", "s")]
+                                           + [(t, "f%d" % i) for i, t in enumerate(every)]))
+        self.descs.append(RecordDescriptor("c16/alljson", [("varint", "uid"), ("string", "s")]
+                                           + [(t, "f%d" % i) for i, t in enumerate(every) if not t.startswith(("command", "record"))]))
         self.sources = {}       # name -> dict(path, kind, views, exc)
         self.good = []
         uid = idx * 1000
@@ -216,9 +243,13 @@ class Dataset:
             ext = exts[g]
             path = os.path.join(self.dir, "good%d.%s" % (g, ext))
             nrec = rnd.randint(5, 30)
+            pool = self.descs
+            if ext == "jsonl":
+                # the JSON reader cannot read a command value back (C14's subject): a JSON source holds the other types
+                pool = [d for d in self.descs if not any(t.startswith(("command", "record")) for t, _ in d.get_field_tuples())]
             with RecordWriter(path) as w:
                 for _ in range(nrec):
-                    w.write(make(rnd.choice(self.descs)))
+                    w.write(make(rnd.choice(pool)))
             name = "good%d" % g
             self.good.append(name)
             self._register(name, path, "good", expect=nrec)
@@ -481,21 +512,33 @@ def slot_type(v, k):
         else v["fields"][v["names"].index(k)][0]
 
 
-_packer = None
+_packers = {}
 
 
-def json_form(t, x):
-    global _packer
+def canon_json(x):
+    """parsed JSON with NaN made comparable"""
+    if isinstance(x, float) and x != x:
+        return "<NaN>"
+    if isinstance(x, list):
+        return [canon_json(y) for y in x]
+    if isinstance(x, tuple):
+        return tuple(canon_json(y) for y in x)
+    return x
+
+
+def json_form(t, x, file_mode=False):
+    """the JSON form of a field value, as the field types define it (C14): JsonRecordPacker.pack_obj on the value;
+    with descriptors (a .jsonl / jsonfile:// writer) a nested record carries its _type / _recorddescriptor"""
     from flow.record import JsonRecordPacker
-    if _packer is None:
-        _packer = JsonRecordPacker()
+    if file_mode not in _packers:
+        _packers[file_mode] = JsonRecordPacker(pack_descriptors=file_mode)
     if t == "boolean" and isinstance(x, int):
         x = bool(x)
-    return json.loads(json.dumps(x, default=_packer.pack_obj), object_pairs_hook=lambda p: p)
+    return canon_json(json.loads(json.dumps(x, default=_packers[file_mode].pack_obj), object_pairs_hook=lambda p: p))
 
 
-def json_doc(v):
-    return [(k, json_form(slot_type(v, k), slot_value(v, k))) for k in all_keys(v)]
+def json_doc(v, file_mode=False):
+    return [(k, json_form(slot_type(v, k), slot_value(v, k), file_mode)) for k in all_keys(v)]
 
 
 class _Missing(dict):
@@ -551,14 +594,14 @@ def writer_uri(out, outdir):
     return {"w:records": base + ".records", "w:records.gz": base + ".records.gz", "w:jsonl": base + ".jsonl",
             "w:csvfile": "csvfile://" + base + ".csv", "w:line": "line://" + base + ".txt",
             "w:jsonfile": "jsonfile://" + base + ".json?descriptors=true",
-            "w:stream-uri": "stream://" + base + ".bin"}[out]
+            "w:stream-uri": "stream://" + base + ".bin", "w:stdout": "-"}[out]
 
 
 def out_path(out, outdir):
     base = os.path.join(outdir, "out")
     return {"w:records": base + ".records", "w:records.gz": base + ".records.gz", "w:jsonl": base + ".jsonl",
             "w:csvfile": base + ".csv", "w:line": base + ".txt", "w:jsonfile": base + ".json",
-            "w:stream-uri": base + ".bin"}[out]
+            "w:stream-uri": base + ".bin", "w:stdout": None}[out]
 
 
 def run_main(argv):
@@ -647,7 +690,8 @@ def compare_json_docs(exp, docs, st, file_mode=False):
     if len(recs) != len(exp):
         raise Mismatch("%d JSON records in the output, expected %d" % (len(recs), len(exp)))
     for i, (e, d) in enumerate(zip(exp, recs)):
-        want = json_doc(e)
+        want = json_doc(e, file_mode)
+        d = canon_json(d)
         if want != d:
             raise Mismatch("JSON record %d differs: got %r, expected %r" % (i, d, want))
 
@@ -791,6 +835,18 @@ def check_output(ds, opt, res, outdir, sel_views, written, st):
         raise Mismatch("rdump raised %s: %s" % (type(res["exc"]).__name__, res["exc"]))
     if res["rc"] not in (None, 0):
         raise Mismatch("rdump returned %r" % (res["rc"],))
+    if out == "w:stdout":
+        # `-w -`: a terminal gets the records' text form (one repr per line), anything else the binary record stream
+        if opt.get("pty"):
+            compare_text(written, res["stdout"].decode("utf-8"), None, st)
+        else:
+            from flow.record import RecordReader
+            try:
+                got = [view_of(r) for r in RecordReader(fileobj=io.BytesIO(res["stdout"]))] if (res["stdout"] or written) else []
+            except Exception as e:  # noqa
+                raise Mismatch("the record stream written to stdout is unreadable: %s: %s" % (type(e).__name__, e))
+            compare_views(written, got, st)
+        return
     text = res["stdout"].decode("utf-8")
     fields, exclude = comma(opt.get("fields") or "") or None, comma(opt.get("exclude") or "") or None
     if opt.get("list"):
@@ -973,7 +1029,7 @@ def coq_case(ds, src_names, opt, sel_views, written, res, writer, impl_ids):
 # option combinations
 
 OUTS = ["w:records", "w:jsonl", "w:csvfile", "m:csv", "m:json", "m:jsonlines", "m:line", "m:text", "w:records.gz",
-        "m:line-verbose", "w:line", "w:jsonfile", "w:stream-uri"]
+        "m:line-verbose", "w:line", "w:jsonfile", "w:stream-uri", "w:stdout"]
 FIELDS = [None, "uid,n", "s,uid,zz", "uid,_source,n", "zz", "e0,uid,d1", "uid,user", "user,s,e1", "d1,uid,ts"]
 EXCLUDES = [None, "s", "n,e0", "_generated", "zz", "uid", "user", "n", "ts", "ts_description,d2"]
 EXPR = "tag = str(_source) + '|' + str(_classification)"
@@ -1013,13 +1069,53 @@ def canonical(src_kinds, opt):
     return (tuple(src_kinds), tuple(sorted((k, v) for k, v in opt.items() if v not in (None, False))))
 
 
-def run_sub(argv):
-    """the command line as a fresh process: python -m flow.record.tools.rdump"""
-    p = subprocess.run([core.PY, "-m", "flow.record.tools.rdump"] + argv, env=core.env_for_repo(), stdout=subprocess.PIPE,
-                       stderr=subprocess.PIPE, timeout=180)
-    rc = p.returncode
-    return dict(rc="exit:2" if rc == 2 else rc, exc=None, stdout=p.stdout, uri=None, selector=None,
-                stderr=p.stderr[-800:].decode("utf-8", "replace"))
+def run_sub(argv, use_pty=False):
+    """the command line as a fresh process: python -m flow.record.tools.rdump; use_pty: its stdout is a terminal
+    (a pseudo terminal in raw mode, the master side is read)"""
+    cmd = [core.PY, "-m", "flow.record.tools.rdump"] + argv
+    if not use_pty:
+        p = subprocess.run(cmd, env=core.env_for_repo(), stdout=subprocess.PIPE, stderr=subprocess.PIPE, timeout=180)
+        rc, out, err = p.returncode, p.stdout, p.stderr
+    else:
+        import pty
+        import select
+        import tty
+        master, slave = pty.openpty()
+        tty.setraw(slave)
+        p = subprocess.Popen(cmd, env=core.env_for_repo(), stdin=subprocess.DEVNULL, stdout=slave, stderr=subprocess.PIPE)
+        os.close(slave)
+        chunks = []
+        deadline = time.time() + 180
+        while time.time() < deadline:
+            r, _, _ = select.select([master], [], [], 0.2)
+            if r:
+                try:
+                    data = os.read(master, 65536)
+                except OSError:      # EIO: the child closed its side
+                    break
+                if not data:
+                    break
+                chunks.append(data)
+            elif p.poll() is not None:
+                # drain what is left
+                try:
+                    while select.select([master], [], [], 0.05)[0]:
+                        data = os.read(master, 65536)
+                        if not data:
+                            break
+                        chunks.append(data)
+                except OSError:
+                    pass
+                break
+        err = p.stderr.read()
+        try:
+            p.wait(timeout=30)
+        except subprocess.TimeoutExpired:
+            p.kill()
+        os.close(master)
+        rc, out = p.returncode, b"".join(chunks)
+    return dict(rc="exit:2" if rc == 2 else rc, exc=None, stdout=out, uri=None, selector=None,
+                stderr=err[-800:].decode("utf-8", "replace"))
 
 
 def run_one(ctx, ds, src_names, opt, outdir, st, coq_cases, metas, rnd=None, sub=False):
@@ -1052,7 +1148,7 @@ def run_one(ctx, ds, src_names, opt, outdir, st, coq_cases, metas, rnd=None, sub
     else:
         argv, writer = build_argv(ds, src_names, opt, outdir)
         sel_views, written = ref_pipeline(ds, src_names, opt)
-    res = run_sub(argv) if sub else run_main(argv)
+    res = run_sub(argv, use_pty=bool(opt.get("pty"))) if sub else run_main(argv)
     if sub and res["rc"] not in (0, "exit:2"):
         res["exc"] = RuntimeError("exit status %s: %s" % (res["rc"], res["stderr"].strip().splitlines()[-1:] or ""))
     meta = dict(subprocess=bool(sub), kind="rdump-case", dataset=ds.idx, dataset_seed=ds.seed, sources=list(src_names), opt=opt,
@@ -1333,6 +1429,10 @@ def sweep(ctx, coq=True, first_only=True):
             return coq_cases, metas, problems, st
         for srcs, opt in plan(ctx, ds, rnd):
             opt = {k: v for k, v in opt.items() if v is not None}
+            if opt.get("out") == "w:stdout":
+                opt.pop("list", None)
+                opt.pop("split", None)
+                opt.pop("suffix_length", None)
             ctx.count_case(canonical([ds.sources[n]["kind"] for n in srcs], opt) + (i,), nontrivial=nontrivial(ds, srcs, opt))
             bad = run_one(ctx, ds, srcs, opt, outdir, st, coq_cases, metas)
             if bad:
@@ -1354,7 +1454,10 @@ SUB_CASES = [
     dict(out="m:json", count=5, exclude="s"), dict(out="m:line", fields="uid,_source,n"), dict(out="m:line-verbose", count=7),
     dict(out="w:records", multi=True), dict(out="m:jsonlines", multi=True, rsrc="SRC2"),
     dict(out="m:text", sel=len(SELECTORS) - 1), dict(out="w:records", sel=len(SELECTORS) - 3, no_compile=True),
-    dict(out="m:text", fmt="{uid}|{_source}"), dict(list=True),
+    dict(out="m:text", fmt="{uid}|{_source}"), dict(list=True), dict(out="w:stdout"), dict(out="w:stdout", skip=2, count=9, exclude="s"),
+    # stdout is a terminal: the default output and `-w -` print the records' text form
+    dict(out="m:text", pty=True), dict(out="w:stdout", pty=True), dict(out="w:stdout", pty=True, skip=1, count=6, fields="uid,s,n", rsrc="SRC2"),
+    dict(out="w:stdout", pty=True, multi=True), dict(out="m:jsonlines", pty=True, count=4),
 ]
 
 
@@ -1388,6 +1491,9 @@ def describe(m):
         return "%s stage1.records %s  [stage1.records written by: rdump <%s> --multi-timestamp -w stage1.records] -> %s" % (
             "python -m flow.record.tools.rdump" if m.get("subprocess") else "rdump", " ".join(m["argv"][1:]),
             ", ".join(m["source_kinds"]), m["problem"])
+    if m.get("opt", {}).get("pty"):
+        return "python -m flow.record.tools.rdump %s  with a terminal (pty) as stdout  [sources: %s] -> %s" % (
+            " ".join(a for a in m["argv"][len(m["sources"]):]), ", ".join(m["source_kinds"]), m["problem"])
     return "%s %s  [sources: %s] -> %s" % ("python -m flow.record.tools.rdump" if m.get("subprocess") else "rdump",
                                           " ".join(a for a in m["argv"][len(m["sources"]):]), ", ".join(m["source_kinds"]), m["problem"])
 
